@@ -67,7 +67,7 @@ def gen_spec(rng, small=False):
             ip = rng.choice([1, 2, 3])
         else:
             ip = rng.choice([0, 0, 1, 1, 2, 3])
-        hosts.append([ip, rng.choice([9200, 9200, 9201])])
+        hosts.append([ip, rng.choice([9200, 9200, 9201, 39200])])
     keys = []
     for h in hosts:
         if tuple(h) not in keys:
@@ -110,10 +110,44 @@ def gen_spec(rng, small=False):
         "timers": rng.choice([0, 0, 1, 2, 3]),
         "sched": rng.getrandbits(32),
         "ambient": gen_ambient(rng),
+        "raw_hosts": render_hosts(rng, hosts, localhost=0.1) if rng.random() < 0.85 else None,
     }
 
 
 LEVELS = ["DEBUG", "INFO", "WARNING", "ERROR"]
+
+
+def host_str(ip):
+    return "127.0.0.1" if ip == 0 else f"10.0.0.{ip}"
+
+
+def render_hosts(rng, hosts, localhost=0.0):
+    """the scenario's node list (one entry per node, (ip id, port)) spelled as a raw --target-hosts value: csv (with or
+    without blanks), inline JSON, JSON file; per entry: default port omitted, http:// prefix, trailing slash, dict form;
+    optionally `localhost` for the local ip; empty value = the provisioning pipelines' default (127.0.0.1:39200).
+    Rally's own parsing is not used here: the scenario stays the independent specification of what has to be started."""
+    if hosts == [[0, 39200]] and rng.random() < 0.5:
+        return {"form": "default", "value": ""}
+    form = rng.choice(["csv", "csv", "csv-blanks", "json", "json-dicts", "jsonfile"])
+    entries = []
+    for ip, port in hosts:
+        h = "localhost" if ip == 0 and rng.random() < localhost else host_str(ip)
+        if form == "json-dicts" or (form == "jsonfile" and rng.random() < 0.3):
+            entries.append({"host": h} if port == 9200 and rng.random() < 0.4 else {"host": h, "port": port})
+            continue
+        x = rng.random()
+        if port == 9200 and x < 0.35:
+            e = h
+        elif x < 0.5:
+            e = f"http://{h}:{port}" + ("/" if rng.random() < 0.3 else "")
+        else:
+            e = f"{h}:{port}"
+        entries.append(e)
+    if form == "csv":
+        return {"form": "csv", "value": ",".join(entries)}
+    if form == "csv-blanks":
+        return {"form": "csv", "value": ", ".join(entries)}
+    return {"form": "jsonfile" if form == "jsonfile" else "json", "value": json.dumps({"default": entries})}
 
 
 def gen_ambient(rng):
@@ -128,7 +162,8 @@ def gen_ambient(rng):
             if rng.random() < 0.3:
                 levels[name] = rng.choice(LEVELS)
         log = {"disable": False, "levels": levels}
-    return {"log": log, "console": rng.choice(["quiet", "print"]), "build": rng.choice(["distribution", "distribution", "sources", "both"])}
+    return {"log": log, "console": rng.choice(["quiet", "print"]), "build": rng.choice(["distribution", "distribution", "sources", "both"]),
+            "launcher": "process" if rng.random() < 0.05 else "recording"}
 
 
 def ambient_class(a):
@@ -166,6 +201,10 @@ def gen_inject(ctx):
     rng = ctx.rng
     for _ in range(ctx.budget):
         spec = gen_spec(rng)
+        if spec["ambient"]:
+            spec["ambient"]["launcher"] = "recording"  # out-of-protocol double starts would only leak stand-in daemons
+        if spec["raw_hosts"] and "localhost" in spec["raw_hosts"]["value"]:
+            spec["raw_hosts"] = None
         H = len({tuple(h) for h in spec["hosts"]})
         inj = []
         for _ in range(rng.choice([1, 2, 3, 5, 8])):
@@ -178,6 +217,31 @@ def gen_inject(ctx):
             inj.append([at, src, dst, m])
         spec["injections"] = inj
         yield spec
+
+
+def gen_processes(ctx):
+    """the REAL ProcessLauncher under the real actors: emphasis on several nodes in one node mechanic (the same ip:port repeated),
+    several such hosts, local and remote, preserve on/off, a launch failure now and then, every delivery order"""
+    rng = ctx.rng
+    for _ in range(ctx.budget):
+        groups = [(rng.choice([0, 0, 1, 2]), rng.choice([9200, 9201, 39200])) for _ in range(rng.choice([1, 1, 2, 2, 3]))]
+        hosts = []
+        for g in dict.fromkeys(groups):
+            hosts += [[g[0], g[1]]] * rng.choice([1, 2, 2, 3, 4])
+        rng.shuffle(hosts)
+        keys = list(dict.fromkeys(tuple(h) for h in hosts))
+        plans = ["ok"] * len(keys)
+        if rng.random() < 0.15:
+            plans[rng.randrange(len(keys))] = rng.choice(["failLaunch", ["failPrepare", rng.choice([0, 1])], "failSupply"])
+        remote = list(dict.fromkeys(ip for ip, _ in keys if ip != 0))
+        rng.shuffle(remote)
+        amb = gen_ambient(rng) or {"log": None, "console": "quiet", "build": "distribution"}
+        amb["launcher"] = "process"
+        yield {
+            "hosts": hosts, "external": False, "preserve": rng.random() < 0.4, "raceFound": rng.random() < 0.7, "plans": plans,
+            "convs": [[True, ip] for ip in remote], "stop": rng.random() < 0.9, "timers": rng.choice([0, 1, 2]),
+            "sched": rng.getrandbits(32), "ambient": amb, "raw_hosts": render_hosts(rng, hosts) if rng.random() < 0.7 else None,
+        }
 
 
 def gen_groups(ctx):
@@ -208,6 +272,11 @@ SMALL = [
      "ambient": {"log": {"disable": False, "levels": {"": "INFO", "esrally.actor": "DEBUG"}}, "console": "quiet", "build": "both"}},
     {"hosts": [[0, 9200], [1, 9200]], "plans": [], "convs": [], "external": True,
      "ambient": {"log": {"disable": False, "levels": {"": "DEBUG"}}, "console": "print", "build": "distribution"}},
+    # the command line plumbing and the real ProcessLauncher: two nodes in one node mechanic plus a second host
+    {"hosts": [[0, 39200], [0, 39200], [1, 9200]], "plans": [], "convs": [[True, 1]], "raw_hosts": {"form": "csv", "value": "127.0.0.1:39200,127.0.0.1:39200,10.0.0.1"},
+     "ambient": {"log": None, "console": "quiet", "build": "distribution", "launcher": "process"}},
+    {"hosts": [[1, 9200], [1, 9200], [1, 9200]], "plans": [], "convs": [[True, 1]], "raw_hosts": {"form": "json", "value": "{\"default\": [\"10.0.0.1:9200\", \"10.0.0.1\", {\"host\": \"10.0.0.1\"}]}"},
+     "ambient": {"log": None, "console": "quiet", "build": "distribution", "launcher": "process"}},
 ]
 
 
@@ -217,9 +286,10 @@ def gen_exhaustive(ctx):
     for i, c in enumerate(SMALL):
         if i % ctx.nshards != ctx.shard:
             continue
-        spec = {"external": False, "preserve": False, "raceFound": True, "convs": [], "stop": True, "timers": 0, "sched": 0, "ambient": None}
+        spec = {"external": False, "preserve": False, "raceFound": True, "convs": [], "stop": True, "timers": 0, "sched": 0, "ambient": None, "raw_hosts": None}
         spec.update(c)
-        yield {"spec": spec, "max_paths": ctx.budget if ctx.tier == "quick" else 120000}
+        real = (spec.get("ambient") or {}).get("launcher") == "process"  # real processes: ~30 ms per schedule
+        yield {"spec": spec, "max_paths": (min(ctx.budget, 60) if real else ctx.budget) if ctx.tier == "quick" else (20000 if real else 120000)}
 
 
 # ------------------------------------------------------------------------------------------------
@@ -266,6 +336,22 @@ def oracle(ctx, spec, r):
             ctx.count("unformattable-log-record")  # not visible in the protocol
         else:
             ctx.diff("simulator anomaly", None, a)
+
+    # process level (only with the real ProcessLauncher): every node runs as its own live process, known to the mechanic by its
+    # own pid; after EngineStopped every started process has been terminated exactly once and nothing is left running
+    for cls, text in r.get("proc_problems") or []:
+        ctx.fail(cls, text)
+    procs = r.get("processes") or []
+    if (spec.get("ambient") or {}).get("launcher") == "process" and not ext:
+        have = {p["node"] for p in procs}
+        if n_started and have != set(range(len(spec["hosts"]))):
+            ctx.fail("node-process-missing", "EngineStarted although some node has no daemon process", sorted(range(len(spec["hosts"]))), sorted(have))
+        if n_stopped:
+            for p in procs:
+                if p["alive"]:
+                    ctx.fail("process-left-running", f"the daemon of node {p['node']} is still running after EngineStopped", "terminated", p)
+                elif p["terms"] != 1:
+                    ctx.fail("process-not-terminated-exactly-once", f"the daemon of node {p['node']} got {p['terms']} SIGTERM", 1, p["terms"])
 
     # external_untouched
     if ext:
@@ -336,13 +422,50 @@ def plan_kind(p):
     return p[0] if isinstance(p, list) else p
 
 
+def localhost_unresolved(spec):
+    """the scenario spells the local host `localhost` and the code under test does not resolve that to the local ip"""
+    raw = spec.get("raw_hosts")
+    if not raw or "localhost" not in raw["value"]:
+        return False
+    from esrally.utils import net
+
+    return net.resolve("localhost") != "127.0.0.1"
+
+
 def compare(ctx, spec, r, judge=True):
+    if localhost_unresolved(spec):
+        # the model takes the scenario's word that this host is local; a tree that does not is judged by the oracle only, under
+        # its own input class (the replay would only repeat "the Dispatcher treats the host as remote" at every later step)
+        report, seen = ctx.fail, []
+
+        def once(cls, what, *a, **k):  # one failing input per case, one class
+            if not seen:
+                seen.append(cls)
+                report("localhost-target-host-not-local", f"[{cls}] {what}", *a, **k)
+
+        ctx.fail = once
+        try:
+            oracle(ctx, spec, r)
+        finally:
+            ctx.fail = report
+        return {"status": "not-replayed", "diverge": None}
     cfg = base_cfg(spec)
     cfg["patched"] = patched_flag()
     m = ctx.model("mechanic", "replay", {"cfg": cfg, "hist": r["trace"]})["r"]
     if m["diverge"] is not None:
         i = m["diverge"]["i"]
         ctx.diff(f"history step {i}: {m['diverge']['why']}", {"event": r["trace"][i]["e"], "outs": m["diverge"]["model"]}, r["trace"][i])
+    # the ProcessLauncher model (Launcher.startAll / stopAll): which daemon each node tracks, SIGTERMs, survivors
+    stopped = any(x[0] == "engineStopped" for x in r["rc_inbox"])
+    by_node = {p["node"]: p for p in r.get("processes") or []}
+    for l in r.get("launches") or []:
+        lm = ctx.model("mechanic", "launcher", {"n": len(l["ids"])})["r"]
+        if lm["owners"] != l["owners"]:
+            ctx.diff("ProcessLauncher.start: node -> daemon it tracks", lm["owners"], l["owners"])
+        if stopped and all(i in by_node for i in l["ids"]):
+            obs = [[by_node[i]["terms"] for i in l["ids"]], [by_node[i]["alive"] for i in l["ids"]]]
+            if [lm["terms"], lm["running"]] != obs:
+                ctx.diff("ProcessLauncher.stop: SIGTERMs per daemon / still running", [lm["terms"], lm["running"]], obs)
     if judge:
         oracle(ctx, spec, r)
     return m
@@ -358,9 +481,14 @@ def run_history(ctx, case):
     asked = any(o[0] == "recv" and o[3][0] == "startNodes" for t in r["trace"] for o in t["o"])
     sig = [min(H, 4), min(remotes, 2), case["external"], sorted({plan_kind(p) for p in case["plans"]}),
            sorted({("join" if a else "leave") for a, _ in case["convs"]}), case["stop"], outcome(r), m["status"], r["quiescent"],
-           ambient_class(case.get("ambient"))[:2]]
+           ambient_class(case.get("ambient"))[:2], (case.get("raw_hosts") or {}).get("form"), (case.get("ambient") or {}).get("launcher") == "process",
+           max(len(i) for i in r["groups"]["ids"]) > 1 if r["groups"]["ids"] else False]
     ctx.sig(sig, nontrivial=asked or case["external"])
     ctx.count("H=%d" % H)
+    ctx.count("hosts-form:" + str((case.get("raw_hosts") or {}).get("form")))
+    if (case.get("ambient") or {}).get("launcher") == "process":
+        ctx.count("real-launcher")
+        ctx.count("real-launcher-processes", len(r.get("processes") or []))
     for k, v in zip(("actor-logger", "mechanic-logger", "console", "build"), ambient_class(case.get("ambient"))):
         ctx.count(f"ambient-{k}:{v}")
     ctx.count("outcome:" + ",".join(outcome(r)))
@@ -458,6 +586,7 @@ def run_exhaustive(ctx, case):
 STREAMS = [
     Stream("histories", gen_histories, run_history, quick=9600, thorough=120000, shards=12),
     Stream("inject", gen_inject, run_inject, quick=3000, thorough=40000, shards=6),
+    Stream("processes", gen_processes, run_history, quick=480, thorough=8000, shards=8),
     Stream("groups", gen_groups, run_groups, quick=500, thorough=5000, shards=1),
     Stream("exhaustive", gen_exhaustive, run_exhaustive, quick=3000, thorough=200000, shards=12, exhaustive_thorough=True),
 ]
